@@ -21,7 +21,7 @@ ASSUMPTIONS = [
 ]
 REQUIRED_LABELS = {t: ["advance", "ancestor", "asked-brothers>=2", "multi-chunk-header",
                        "stop-early", "stop-early-partial", "history", "same-hash-other-coinbase", "final:partial", "final:total", "fields:17", "fields:18",
-                       "fields:19", "fields:20", "code:0", "code:1", "mm-len:55", "mm-len:56", "mm-len:255",
+                       "fields:19", "fields:20", "code:0", "code:1", "mm-len:55", "mm-len:56", "mm-len:255", "asked-brothers:10",
                        "mm-len:256"]
                    for t in ("quick", "thorough")}
 
@@ -118,8 +118,27 @@ def one_request(draw, tier):
         maxb = 20 if thorough and draw(st.integers(0, 9)) == 0 else 10
         bros = []
         for _ in range(nb):
-            nbro = draw(st.one_of(st.integers(0, 3), st.integers(0, maxb)))
-            bros.append([draw(block([19, 20], False)) for _ in range(nbro)])
+            nbro = draw(st.one_of(st.integers(0, 3), st.integers(0, maxb),
+                                  st.sampled_from([9, 10])))
+            if nbro >= 4:
+                # many brothers: variations of one drawn header (a list of ten independently
+                # drawn headers is more than a generated case can hold)
+                base = draw(block([19, 20], False))
+                lst = []
+                for k in range(nbro):
+                    b2 = dict(base, fields=list(base["fields"]))
+                    tag = bytes([k]) + draw(st.binary(min_size=2, max_size=2))
+                    # (in place where a field is long enough: the header keeps its size)
+                    j = next((j for j in range(len(b2["fields"]) - 3)
+                              if len(b2["fields"][j]) >= 3), None)
+                    if j is None:
+                        b2["fields"][0] = tag
+                    else:
+                        b2["fields"][j] = tag + b2["fields"][j][3:]
+                    lst.append(b2)
+                bros.append(lst)
+            else:
+                bros.append([draw(block([19, 20], False)) for _ in range(nbro)])
         ask = draw(st.lists(st.booleans(), min_size=nb, max_size=nb))
     else:
         blocks = [draw(block([17, 18, 19, 20], big_cb)) for _ in range(nb)]
@@ -262,6 +281,8 @@ def run_one(c, w, p):
                 raise Violation("brother-metadata", "block %d" % i)
             if len(exp) >= 2:
                 asked2 = True
+            if len(exp) in (9, 10):
+                labels.append("asked-brothers:%d" % len(exp))
         elif adv:
             if it["brothers"] is not None:
                 raise Violation("brothers-unasked", "block %d" % i)
